@@ -283,8 +283,7 @@ func (e *executor) execCall(fr *frame, st *State, in *Instr) error {
 		r := e.newRegion(rkMapVal, fmt.Sprintf("%s_%d", mi.Name, len(e.probes.calls)), mi.ValueSize)
 		r.Map = mi.Name
 		r.init = &RegMem{Base: e.tm.named("mapval_"+mi.Name, smt.App(arrSort, vals, key)), Ov: map[int64]Byte{}}
-		p := &Ptr{Reg: smt.Ite(found, regLit(r.ID), regLit(ridNull)), Off: lit(0, 64), OffUB: 0, Cands: []int{ridNull, r.ID}}
-		set(&Val{W: 64, IsPtr: true, P: p})
+		set(e.mergeVal(found, e.ptrTo(r, 0), e.nullPtr()))
 		old, ok := st.found[mi.Name]
 		if !ok {
 			old = smt.False
@@ -379,8 +378,7 @@ func (e *executor) execCall(fr *frame, st *State, in *Instr) error {
 		}
 		got := e.tm.freshConst("ringbuf_reserved", smt.Bool)
 		r := e.newRegion(rkRingbuf, fmt.Sprintf("ringbuf_%d", len(e.probes.calls)), int64(n))
-		p := &Ptr{Reg: smt.Ite(got, regLit(r.ID), regLit(ridNull)), Off: lit(0, 64), OffUB: 0, Cands: []int{ridNull, r.ID}}
-		set(&Val{W: 64, IsPtr: true, P: p})
+		set(e.mergeVal(got, e.ptrTo(r, 0), e.nullPtr()))
 		cp.found = got
 	case "bpf_ringbuf_submit", "bpf_ringbuf_discard":
 		// the record must come from bpf_ringbuf_reserve (and not be NULL)
